@@ -6,8 +6,8 @@ package sm3ref
 import "encoding/binary"
 
 func rotl(x uint32, n uint) uint32 { n %= 32; return x<<n | x>>(32-n) }
-func p0(x uint32) uint32            { return x ^ rotl(x, 9) ^ rotl(x, 17) }
-func p1(x uint32) uint32            { return x ^ rotl(x, 15) ^ rotl(x, 23) }
+func p0(x uint32) uint32           { return x ^ rotl(x, 9) ^ rotl(x, 17) }
+func p1(x uint32) uint32           { return x ^ rotl(x, 15) ^ rotl(x, 23) }
 func tj(j int) uint32 {
 	if j <= 15 {
 		return 0x79cc4519
